@@ -207,7 +207,7 @@ ENTRIES = {
              "or relaunched; no index skipped; inputs from the predecessor), under 'marker published last' and the repaired examine (or batch size "
              "1); both hypotheses shown necessary by vm_compute witnesses. The real script is driven in-process against a fake nextflow over all "
              "single and (thorough) exhaustive/sampled pairs of crash points, launch log and final tree compared with the model and with the "
-             "crash-free run. The invocation level (what run_next_* returns, the while loop of main(), the operator handing over a new screen per completed prospective batch) is modelled: an invocation never crosses a batch boundary, every launched step reads the operator screen of its iteration, invocations stop exactly at the batch boundary / when no plate remains; main() is driven per invocation with a distinct --screen per operator screen. examine_output_dir_to_determine_current_iteration, run_next_retrospective_step / run_next_prospective_step and the five directory helpers are re-translated from the script's source on every run and C19_model_is_source_* prove the model's examine (with the repair) / plan_of / call_returns equal to the translations. main() (the while loop on fuel, discharged on every reachable tree), the four run_* command builders and dir_sort_key are re-translated as well: only get_args and the path helpers of the script remain untranslated.",
+             "crash-free run. The invocation level (what run_next_* returns, the while loop of main(), the operator handing over a new screen per completed prospective batch) is modelled: an invocation never crosses a batch boundary, every launched step reads the operator screen of its iteration, invocations stop exactly at the batch boundary / when no plate remains; main() is driven per invocation with a distinct --screen per operator screen. examine_output_dir_to_determine_current_iteration, run_next_retrospective_step / run_next_prospective_step and the five directory helpers are re-translated from the script's source on every run and C19_model_is_source_* prove the model's examine (with the repair) / plan_of / call_returns equal to the translations. main() (the while loop on fuel, discharged on every reachable tree), the four run_* command builders and dir_sort_key are re-translated as well, and so are get_args (option table + a model of parse_known_args, composed with main), validate_initial_output_dir_and_get_result_files_as_dict and the path helpers: every function of the script is re-translated on every run.",
         note="No nextflow engine exists in the sandbox: workflows are represented by harness/fake_nextflow (publishes the files the script globs "
              "for, in a commanded order, crashing on command); nextflow's own resume cache and asynchronous publishDir are outside the model. The "
              "empty-iteration-directory defect found here was repaired in /repo (fix: 77b0dc7; witness in corpus/C19). KNOWN FINDING "
